@@ -41,6 +41,9 @@ Definition std_form_class (c : cfg) (code : Z) : option oclass :=
   let off := CFixed (off_size c) in
   let addr := CFixed (addr_size c) in
   if code =? 0x01 then Some addr                          (* DW_FORM_addr *)
+  else if code =? 0x02 then Some (CFixed 4)               (* DW_FORM_ref: the 4-byte unit-relative reference of DWARF 1;
+                                                             not assigned by DWARF 2-5, still accepted by consumers
+                                                             (and by this library) with that meaning: a supported form *)
   else if code =? 0x03 then Some (CBlockN 2)              (* block2 *)
   else if code =? 0x04 then Some (CBlockN 4)              (* block4 *)
   else if code =? 0x05 then Some (CFixed 2)               (* data2 *)
@@ -87,9 +90,9 @@ Definition std_form_class (c : cfg) (code : Z) : option oclass :=
   else if code =? 0x1f21 then Some off                    (* GNU_strp_alt (dwz) *)
   else None.
 
-(* DWARF 5 Table 7.6 (+ the two dwz forms): code -> name *)
+(* DWARF 5 Table 7.6 (+ DW_FORM_ref of DWARF 1 and the two dwz forms): code -> name *)
 Definition std_form_names : list (Z * string) := [
-  (0x01, "DW_FORM_addr"); (0x03, "DW_FORM_block2"); (0x04, "DW_FORM_block4"); (0x05, "DW_FORM_data2");
+  (0x01, "DW_FORM_addr"); (0x02, "DW_FORM_ref"); (0x03, "DW_FORM_block2"); (0x04, "DW_FORM_block4"); (0x05, "DW_FORM_data2");
   (0x06, "DW_FORM_data4"); (0x07, "DW_FORM_data8"); (0x08, "DW_FORM_string"); (0x09, "DW_FORM_block");
   (0x0a, "DW_FORM_block1"); (0x0b, "DW_FORM_data1"); (0x0c, "DW_FORM_flag"); (0x0d, "DW_FORM_sdata");
   (0x0e, "DW_FORM_strp"); (0x0f, "DW_FORM_udata"); (0x10, "DW_FORM_ref_addr"); (0x11, "DW_FORM_ref1");
